@@ -114,6 +114,7 @@ type FnVerifier struct {
 	structSeen map[string]bool
 	axiomsDone map[string]bool
 	lockOf     map[ssa.Value]string
+	sentinels  map[string]bool
 	targets    []frameTarget
 	decVals    map[*ssa.BasicBlock]Val
 }
